@@ -573,6 +573,10 @@ class HarnessRT(object):
             return (p[1][batch.kind % len(p[1])], len(batch.items))
         if mode == "kindonly":
             return (p[1][batch.kind % len(p[1])], 0)
+        if mode == "content":
+            # a priority derived from what the batch's items ask for (the most urgent request decides): only
+            # defined for a batch that has items - which is all the scheduler ever asks about
+            return (p[1][batch.kind % len(p[1])], max(len(str(it.key)) for it in batch.items))
         if mode == "rand":
             h = zlib.crc32(("%s:%s:%s" % (p[1], batch.bid[0], batch.bid[1])).encode())
             return (h % p[2], 0)
